@@ -54,6 +54,7 @@ def registry_get():
     leaf = z3.Function('tok_leaf', S.V, S.I, S.V)
     node = z3.Function('tok_node', S.I, S.V, S.V)
     pw = z3.Function('parts_width', S.V, S.I, S.I)          # width of the first k parts of a list
+    parts = z3.Function('tok_parts', S.V, S.V)
     TS = z3.Function('token_sets', S.I, S.V)
     is_lex = z3.Function('is_lexer_token', S.V, S.B)
 
@@ -65,7 +66,7 @@ def registry_get():
         return [
             z3.ForAll([p, k], z3.Implies(k <= 0, pw(p, k) == 0), patterns=[pw(p, k)]),
             z3.ForAll([p, k], z3.Implies(k > 0, pw(p, k) == pw(p, k - 1) + width(at(p, k - 1))), patterns=[pw(p, k)]),
-            z3.ForAll([c, p], z3.And(tcls(node(c, p)) == c, width(node(c, p)) == pw(p, ln(p)), z3.Not(is_lex(node(c, p))),
+            z3.ForAll([c, p], z3.And(tcls(node(c, p)) == c, parts(node(c, p)) == p, width(node(c, p)) == pw(p, ln(p)), z3.Not(is_lex(node(c, p))),
                                      z3.Not(is_('NoneV', node(c, p)))), patterns=[node(c, p)]),
             # definition of the leaves of a composite token: position x lies in part jof(p, x)
             z3.ForAll([c, p, x], leaf(node(c, p), x) == leaf(at(p, jof(p, x)), x - pw(p, jof(p, x))),
@@ -89,6 +90,7 @@ def registry_get():
     reg.spec('leaf', lambda t, p: leaf(to_v(t), to_int(p)), None, 'the p-th lexer token under a token, left to right')
     reg.spec('pw', lambda p, k: pw(to_v(p), to_int(k)), None, 'lexer tokens covered by the first k parts')
     reg.spec('tcls', lambda t: tcls(to_v(t)), None, 'class of a token')
+    reg.spec('parts', lambda t: parts(to_v(t)), None, 'the list of children of a composite token')
     reg.spec('is_lex', lambda t: is_lex(to_v(t)), None, 'the value is a lexer token')
     reg.spec('cid', lambda c: S.V.cid(to_v(c)), None, 'class id')
     reg.spec('is_cls', lambda c: is_('Cls', to_v(c)), None, 'a class value')
@@ -135,7 +137,12 @@ def registry_get():
         {'cls': 'cls', 'expression': 'list', 'in_cell': 'V'}, self_class='CompositeBaseToken',
         requires=[EXPR],
         ensures={'is_pair': 'is_tuple(result) and len(result) == 2',
-                 'consumed_prefix': post},
+                 'token_class': 'implies(not is_none(result[0]), tcls(result[0]) == cid(cls))',
+                 'consumed_prefix': post,
+                 'shape_is_a_token_set': 'implies(not is_none(result[0]), tcls(result[0]) == cid(cls) and '
+                                         'any(len(parts(result[0])) == len(token_sets(cls)[s]) and len(parts(result[0])) >= 1 and '
+                                         'all(tcls(parts(result[0])[j]) == cid(token_sets(cls)[s][j]) for j in range(len(parts(result[0])))) '
+                                         'for s in range(len(token_sets(cls)))))'},
         free_exceptions=['E2PyclParserException'],
         invariants={
             0: {'flag': 'is_bool(control_construction_flag)'},
@@ -143,6 +150,7 @@ def registry_get():
                         'is_bool(control_construction_flag) and is_list(tokens)',
                 'consumed': 'pw(new_expression_part, k1) >= k1 and pw(new_expression_part, k1) <= len(expression) and ' +
                             SUFFIX.format(rest='_expression', c='pw(new_expression_part, k1)'),
+                'classes': 'tokens == token_sets(cls)[k0] and all(tcls(new_expression_part[j]) == cid(tokens[j]) for j in range(k1))',
                 'parts_nonempty': 'all(not is_none(new_expression_part[j]) and width(new_expression_part[j]) >= 1 for j in range(k1))',
                 'leaves_in_order': 'all(all(leaf(new_expression_part[j], q) == expression[pw(new_expression_part, j) + q] '
                                    'for q in range(width(new_expression_part[j]))) for j in range(k1))'},
